@@ -395,7 +395,7 @@ func c03Statistics(c *Ctx, s *c03Set) {
 // c03DeclaredStd: rlwe.NewDistribution computes the standard deviation of Ternary{P} as sqrt(1−P);
 // the sampler produces ±1 with total probability P, i.e. sqrt(P).  The two coincide only at P = 1/2.
 func c03DeclaredStd(c *Ctx) {
-	for _, P := range []float64{0.95, 2 / 3.0, 0.5, 0.1} {
+	for _, P := range []float64{0.95, 2 / 3.0, 0.5, 0.05} {
 		params, err := rlwe.NewParametersFromLiteral(rlwe.ParametersLiteral{LogN: 6, LogQ: []int{40}, Xe: ring.Ternary{P: P}})
 		if err != nil {
 			continue
